@@ -32,6 +32,10 @@ impl<'a> WireFormat<'a> for AFSDB<'a> {
     where
         Self: Sized,
     {
+        if data.len() < *position + 2 {
+            return Err(crate::SimpleDnsError::InsufficientData);
+        }
+
         let subtype = u16::from_be_bytes(data[*position..*position + 2].try_into()?);
         *position += 2;
         let hostname = Name::parse(data, position)?;
